@@ -141,7 +141,9 @@ class RelativeRelocation(Relocation):
     name = "rel8"
 
     def calc(self, sym_value, reloc_value):
-        return sym_value - (reloc_value + 1)
+        offset = sym_value - (reloc_value + 1)
+        assert offset in range(-128, 128), str(offset)
+        return offset
 
 
 class RelativeLabel(Constructor):
